@@ -258,6 +258,10 @@ class Safe(Engine):
                         st['injected_by_call'][name] = st['injected_by_call'].get(name, 0) + 1
                     if name == 'rename@tmp>name' and res == '0':
                         renamed = True
+                    if name == 'write@tmp' and 'sparse' in c.ops[0]:
+                        a = t.split('=')[0].split(':')
+                        if len(a) >= 3 and a[1].isdigit() and a[2].isdigit() and int(a[2]) > 1 and (int(a[1]) + int(a[2])) % 4096 == 0:
+                            st['sparse_writes_split'] += 1
             st['outcome']['renamed' if renamed else 'kept_old'] += 1
         return st
 
